@@ -63,7 +63,8 @@ def valid_bases(name, mod, n, rnd, synth):
     # character -- a valid number in canonical form
     from vlib import inputs
     alpha = inputs.module_alphabet(mod)[:24]
-    for b in bases[:2]:
+    layouts = lib.pick_bases(name, mod, [], 0, rnd, cap=5, corpus_items=list(bases))      # one base per documented layout
+    for b in list(dict.fromkeys(list(bases[:2]) + layouts)):
         if not b.isascii():
             continue
         cands = [b[:i] + ch + b[i + 1:] for i in range(len(b)) for ch in alpha if ch != b[i]]
